@@ -275,3 +275,69 @@ pub fn c07(sk: &Skeleton) -> Leaf {
     }
     leaf
 }
+
+/// Native exhaustive scan used to REPLAY a KANI counterexample for the date kernel: every calendar date of
+/// years 0..=9999 through the real `TaxPeriod::from_date`; the first date that disagrees with the statute is reported.
+pub fn c07_dates(_sk: &Skeleton) -> Leaf {
+    let mut leaf = Leaf { outcome: "ok".into(), ..Default::default() };
+    let mut bad: Option<String> = None;
+    let mut n = 0u64;
+    'outer: for y in 0..=9999i32 {
+        for m in 1..=12u32 {
+            for d in 1..=31u32 {
+                let Some(date) = chrono::NaiveDate::from_ymd_opt(y, m, d) else { continue };
+                n += 1;
+                let want = tax_year_of(date);
+                let got = cgt_core::TaxPeriod::from_date(date);
+                let ok = match &got {
+                    Ok(p) => (1900..=2100).contains(&want) && p.start_year() as i32 == want && p.end_year() as i32 == want + 1,
+                    Err(_) => !(1900..=2100).contains(&want),
+                };
+                if !ok {
+                    bad = Some(format!("{date}: from_date = {:?}, statute: {want}", got.map(|p| p.start_year())));
+                    break 'outer;
+                }
+            }
+        }
+    }
+    // period bounds
+    if bad.is_none() {
+        for y in 0..=u16::MAX {
+            let r = cgt_core::TaxPeriod::new(y);
+            let ok = match &r {
+                Ok(p) => (1900..=2100).contains(&y) && p.start_date() == chrono::NaiveDate::from_ymd_opt(y as i32, 4, 6) && p.end_date() == chrono::NaiveDate::from_ymd_opt(y as i32 + 1, 4, 5),
+                Err(_) => !(1900..=2100).contains(&y),
+            };
+            if !ok {
+                bad = Some(format!("TaxPeriod::new({y}) / start_date / end_date"));
+                break;
+            }
+        }
+    }
+    leaf.extra = json!({"dates_scanned": n});
+    leaf.ob_bool("C07.date-kernel-native-scan", bad.is_none(), bad.as_deref().unwrap_or(""));
+    leaf
+}
+
+mod mcp_extract {
+    #![allow(dead_code, unused_imports, clippy::all)]
+    use chrono::Datelike;
+    include!(concat!(env!("OUT_DIR"), "/mcp_extract.rs"));
+}
+
+/// Replay of an SRCX counterexample for the MCP year derivation: the statement `let year = if .. {..} else {..};`
+/// of explain_matching, compiled verbatim (build.rs), evaluated on the date given in opts.date.
+pub fn c07_mcp(sk: &Skeleton) -> Leaf {
+    let mut leaf = Leaf { outcome: "ok".into(), ..Default::default() };
+    let date = sk.opt_str("date").and_then(|d| chrono::NaiveDate::parse_from_str(&d, "%Y-%m-%d").ok()).unwrap_or(sk.base);
+    match mcp_extract::mcp_year(date) {
+        None => {
+            leaf.outcome = "not-extracted".into();
+        }
+        Some(y) => {
+            let want = tax_year_of(date);
+            leaf.ob_bool("C07.mcp-year-derivation", y == want, &format!("explain_matching derives tax year {y} for {date}, statute: {want}"));
+        }
+    }
+    leaf
+}
